@@ -29,6 +29,8 @@ func checkC07(c *Ctx) {
 	c.Expect("C07-R2", 11)
 	c.Expect("C07-R2b", 5)
 	c.Expect("C07-R3", 4)
+	c.Rule("C07-R10", "the state of one evaluation (parameter copy, dynamic variables, stack, buffers) is local to the call: allocated in TParm, no pooled or package-level storage except the static variables")
+	c.Expect("C07-R10", 3)
 	c.Rule("C07-R8", "%i increments each of the first two parameters on its own (each increment depends only on that parameter being an integer)")
 	c.Rule("C07-R9", "every pop in TParm continues with the popped stack (the stack a Pop returns is never discarded)")
 	c.Expect("C07-R8", 2)
@@ -121,6 +123,7 @@ func checkC07(c *Ctx) {
 	c.Check(skipCmp['?'] && skipCmp[';'] && skipCmp['e'], "C07-R3", "skip-scanner:sees-openers", p.pos(fn.Pos()), fmt.Sprintf("bytes examined while skipping: %v", byteSet(skipCmp)))
 	c07SkipNesting(c, p, fn, dispatch)
 	c07Increment(c, p, fn)
+	c07CallLocal(c, p, fn)
 	c07PopDiscipline(c, p, fn)
 	c07CharOutput(c, p, fn, opCmp)
 	c07BinOps(c, p, fn, dispatch)
@@ -250,6 +253,48 @@ func c07Stack(c *Ctx, p *Prog) {
 		}
 	})
 	c.Check(got["true"] == 1 && got["false"] == 0 && len(got) == 2, "C07-R2b", "Push:bool→int", p.pos(push.Pos()), fmt.Sprintf("values pushed for a bool: %v", got))
+	// everything that is not a bool is pushed as it is: string parameters keep their text
+	{
+		okPass, nApp := false, 0
+		extra := ""
+		eachInstr(push, func(in ssa.Instruction) {
+			call, ok := in.(*ssa.Call)
+			if !ok {
+				return
+			}
+			if b, ok := call.Call.Value.(*ssa.Builtin); !ok || b.Name() != "append" {
+				return
+			}
+			nApp++
+			if sl, ok := call.Call.Args[1].(*ssa.Slice); ok {
+				if al, ok := sl.X.(*ssa.Alloc); ok {
+					for _, r := range referrers(al) {
+						if ia, ok := r.(*ssa.IndexAddr); ok {
+							for _, r2 := range referrers(ia) {
+								if st, ok := r2.(*ssa.Store); ok {
+									if st.Val == ssa.Value(push.Params[1]) {
+										okPass = true
+									} else if mi, ok := st.Val.(*ssa.MakeInterface); ok {
+										if _, isK := mi.X.(*ssa.Const); !isK {
+											extra += "pushes " + valName(mi.X) + " at " + p.pos(st.Pos()) + "; "
+										}
+									}
+								}
+							}
+						}
+					}
+				}
+			}
+		})
+		eachInstr(push, func(in ssa.Instruction) {
+			if cc := callCommon(in); cc != nil {
+				if n := calleeName(cc); strings.HasPrefix(n, "strconv.") {
+					extra += "calls " + n + "; "
+				}
+			}
+		})
+		c.Check(okPass && extra == "" && nApp == 3, "C07-R2b", "Push:others-unchanged", p.pos(push.Pos()), fmt.Sprintf("%d appends: 1, 0 and the value itself %s", nApp, extra))
+	}
 	for _, f := range []*ssa.Function{popI, popS} {
 		conv := map[string]bool{}
 		guarded := true
@@ -995,4 +1040,74 @@ func c07PopDiscipline(c *Ctx, p *Prog, fn *ssa.Function) {
 		})
 	}
 	walk(fn)
+}
+
+// c07CallLocal: per-call dynamic variables start empty and nothing of one
+// evaluation is visible to the next, because everything but the static
+// variables is allocated by the call itself.
+func c07CallLocal(c *Ctx, p *Prog, fn *ssa.Function) {
+	// (1) package-level objects touched by TParm and the buffer's methods
+	globals := map[string]bool{}
+	fns := []*ssa.Function{fn}
+	for _, f := range p.modFns {
+		if f.Pkg == p.Terminfo && (recvTypeName(f) == "terminfo.paramsBuffer" || recvTypeName(f) == "terminfo.stack") {
+			fns = append(fns, f)
+		}
+	}
+	for _, f := range fns {
+		eachInstr(f, func(in ssa.Instruction) {
+			for _, op := range in.Operands(nil) {
+				if g, ok := (*op).(*ssa.Global); ok && g.Pkg == p.Terminfo {
+					globals[g.Name()] = true
+				}
+			}
+		})
+	}
+	okG := true
+	for g := range globals {
+		if g != "svars" {
+			okG = false
+		}
+	}
+	c.Check(okG && globals["svars"], "C07-R10", "TParm:package-state", p.pos(fn.Pos()), fmt.Sprintf("package-level variables used by the interpreter: %v (only the static variables may outlive a call)", sortedKeys(globals)))
+	// (2) the scratch buffer is allocated by the call
+	okPB := false
+	detail := ""
+	eachInstr(fn, func(in ssa.Instruction) {
+		cc := callCommon(in)
+		if cc == nil || !strings.HasSuffix(calleeName(cc), "paramsBuffer).Start") {
+			return
+		}
+		if al, ok := cc.Args[0].(*ssa.Alloc); ok && al.Parent() == fn {
+			okPB = true
+		} else {
+			detail = "the buffer handed to Start is " + valName(cc.Args[0])
+		}
+	})
+	c.Check(okPB, "C07-R10", "TParm:buffer-allocated-here", p.pos(fn.Pos()), "the params buffer is a fresh allocation of this call "+detail)
+	// (3) the dynamic variables: the array indexed by (ch - 'a')
+	okDV, n := true, 0
+	eachInstr(fn, func(in ssa.Instruction) {
+		ia, ok := in.(*ssa.IndexAddr)
+		if !ok {
+			return
+		}
+		at, ok := ia.X.Type().Underlying().(*types.Pointer)
+		if !ok {
+			return
+		}
+		arr, ok := at.Elem().Underlying().(*types.Array)
+		if !ok || arr.Len() != 26 {
+			return
+		}
+		if g, isG := ia.X.(*ssa.Global); isG && g.Name() == "svars" {
+			return
+		}
+		n++
+		if al, ok := ia.X.(*ssa.Alloc); !ok || al.Parent() != fn {
+			okDV = false
+			detail = "dynamic variables live in " + valName(ia.X)
+		}
+	})
+	c.Check(okDV && n >= 2, "C07-R10", "TParm:dynamic-variables-local", p.pos(fn.Pos()), fmt.Sprintf("%d accesses to the 26 dynamic variables, all to an array allocated by this call %s", n, detail))
 }
